@@ -48,9 +48,9 @@ def okStep (s : St) (w : World) (op : Op) : Bool :=
   | .qdel n =>
     decide (3 ≤ n) && w.alive.all (fun o => resolve s' o == resolve s o)
   | .replace => w.alive.isEmpty
-  | .padd p => (w.find p.id).isNone
+  | .padd p => (w.find p.id).isNone && decide (0 ≤ p.req)
   | .pupd o n =>
-    w.find o.id == some o && n.id == o.id &&
+    w.find o.id == some o && n.id == o.id && decide (0 ≤ n.req) &&
     (if o.rv = n.rv then n == o else
       atHome s o &&
       (!o.node || n.node) && (!o.term || n.term) &&
@@ -63,7 +63,8 @@ def okStep (s : St) (w : World) (op : Op) : Bool :=
   | .migrate => true
 
 def okHistFrom (s : St) (w : World) : List Op → Bool
-  | [] => w.resvd.isEmpty
+  -- the cut: no Reserve in flight, and no quota whose handler is still pending (`qstore` without its `qput`)
+  | [] => w.resvd.isEmpty && s.store.all (fun q => s.known.contains q.name)
   | op :: ops => okStep s w op && okHistFrom (step s op) (w.apply op) ops
 
 /-- **hypothesis on the live history** -/
@@ -88,12 +89,15 @@ def okOrderFrom (s : St) (final : St) (seenPod : Bool) : List Op → Bool
     (match op with
      | .padd p => resolve s p == resolve final p
      | .replace => !seenPod
+     -- a migration tick in the middle of the delivery finds nothing to move
+     | .migrate => s.cache.all (fun e => e.q != dflt || resolve s e.obj == dflt)
      | _ => true) &&
     okOrderFrom (step s op) final (seenPod || (match op with | .padd _ => true | _ => false)) ops
 
 def isDelivery (live : St) (w : World) (d : List Op) : Bool :=
   d.all (isDeliveryOp live.store w.alive) &&
-  live.store.all (fun q => d.contains (.qput q) || (d.contains (.qstore q) && d.contains .replace)) &&
+  -- every quota object is delivered, and its handler (or a ReplaceQuotas AFTER it reached the store) ran
+  live.store.all (fun q => (d.contains (.qput q) || d.contains (.qstore q)) && (run {} d).known.contains q.name) &&
   w.alive.all (fun p => d.contains (.padd p)) &&
   okOrderFrom {} (run {} d) false d
 
